@@ -1,51 +1,81 @@
 """CrossHair harnesses for C19 - connections and the SQLite transaction lock are always released.
 
-What runs: the real `db_session` / `commit()` / `rollback()` / `SessionCache.connect, reconnect,
-prepare_connection_for_query_execution, commit, close` / `SQLiteProvider.acquire_lock, release_lock,
-set_transaction_mode, commit, rollback, drop, release` / `DBAPIProvider.*` / `Pool.connect, release, drop,
-disconnect` / `SQLitePool._connect, drop, disconnect` (and, for the reconnect family, `PGProvider` + `PGPool`)
-on top of the recording fake DB-API of engine/fakedb.py.  No database engine is involved.
+What runs: the real `db_session.__enter__/__exit__/_commit_or_rollback`, `commit()`, `rollback()`, `flush()`,
+`Database.commit/rollback/execute/disconnect/_exec_sql`, `SessionCache.connect, reconnect,
+prepare_connection_for_query_execution, flush, commit, rollback, release, close`, `SQLiteProvider.acquire_lock,
+release_lock, set_transaction_mode, commit, rollback, drop, release`, `DBAPIProvider.connect, commit, rollback,
+release, drop, disconnect, execute`, `wrap_dbapi_exceptions`, `Pool.connect, release, drop, disconnect`,
+`SQLitePool._connect, drop, disconnect`, and for the reconnect families `PGProvider.set_transaction_mode,
+should_reconnect` + `PGPool._connect, release` and `MySQLProvider.set_transaction_mode, release, should_reconnect`
+(over the base `Pool`), all on top of the recording fake DB-API of engine/fakedb.py.  No database engine runs.
 
-Symbolic: the numbers k1 < k2 of the DB-API calls that fail (0 = no fault; calls are numbered from the first
-`connect` of the scenario: connect, cursor, execute, executemany, commit, rollback, close - the PRAGMA statements
-SQLitePool._connect issues on a fresh connection are numbered like any other execute), whether the session body
-raises, and what the body does between its two pieces of work (nothing / commit() / rollback() / flush()).
-One harness per pool kind x session shape (read-only, optimistic write, immediate, serializable, ddl) so that they
-run in parallel.
+Symbolic (decided by CrossHair/z3): the numbers k1 < k2 (< k3 in the thorough tier) of the DB-API calls that fail
+(0 = no fault; calls are numbered from the first `connect` of the scenario: connect, cursor, execute, executemany,
+commit, rollback, close - the PRAGMA statements SQLitePool._connect issues on a fresh connection are numbered like
+any other execute), whether the session body raises, what the body does between its two pieces of work (`mid`:
+nothing / commit() / rollback() / flush() / db.commit() / db.rollback() / a raw db.execute() / a nested db_session)
+and the class of the injected exception (`exc`: 0 = the driver's OperationalError - for PostgreSQL/MySQL with the
+code that makes `should_reconnect` answer yes, so the reconnect path runs -, 1 = the driver's IntegrityError (never
+reconnects), 2 = an exception that is not a DB-API error).  One harness per pool kind (SQLite file pool, SQLite
+':memory:' pool, PGPool, base Pool under MySQLProvider) x session shape (read-only, optimistic write, immediate,
+serializable, ddl), so that they run in parallel.
 
-Scenario per explored path: session A (armed faults) -> state check -> session B: a plain immediate write session
-with the faults disarmed ("a following session") -> state check -> db.disconnect() -> final accounting.
-In the thorough tier the faults stay armed during a second session A' before the probe.
+How it is executed: the scenario's only symbolic data are those numbers and flags; pony never sees them (the fake
+driver compares the fault numbers with its concrete call counter in one place, Recorder.tick).  The flags are
+decided at the top of `_scenario` under CrossHair's tracer; the rest runs inside `fakedb.untraced`, which switches
+the opcode tracer off and re-enables it for exactly that comparison, so CrossHair forks the path there as usual
+("call n is the faulted one" / "is not") and the verdict is still "Confirmed over all paths" of that decision tree;
+a path costs ~5 ms instead of ~0.6 s, which is what makes two and three fault positions affordable.  (Fully traced,
+the single-session / two-fault version of one harness did not confirm within 150 s.)
 
-Reference statement of the property (function `_state_ok`):
+Scenario per explored path: session A (faults armed) -> state check -> session A2 of the same shape (faults still
+armed; so the second fault can hit the session that follows a damaged one) -> state check -> faults disarmed ->
+session B, a plain immediate write session ("a following session") -> state check -> (SQLite) session C in a
+different thread -> db.disconnect() -> final accounting.
+
+Reference statement of the property (functions `_state_ok`, `_scenario_body`):
   R1 the provider's transaction lock and pre-transaction lock are free; no acquire ever found the lock held
-     (the lock is a real threading.Lock probed with acquire(False), see fakedb.ProbeLock) and no release hit
-     a free lock;
+     (the locks are real threading.Lock objects behind fakedb.ProbeLock, which probes with acquire(False) and raises
+     instead of hanging); no release hit a free lock; acquire and release counts agree;
   R2 `local.db2cache` is empty, `local.db_session` is None, the context counter is 0;
-  R3 every connection ever opened is either the pool's connection - then it was never closed and carries no
-     open transaction - or it had close() called exactly once; nothing was called on a connection after close();
-  R4 every checkout from the pool was answered by exactly one release-or-drop (counted by a subclass of the
-     real pool class that only counts and delegates);
-  R5 the following session B raises nothing;
-  R6 after db.disconnect() a file-backed pool holds no connection and every connection was closed exactly once
-     (the ':memory:' pool keeps its only connection by design: dropping it would destroy the database).
-An exception from session A itself is always acceptable (the property is about what is left behind).
+  R3 every connection ever opened is either the pool's current connection - then close() was never called on it
+     and it carries no open transaction - or close() was called on it exactly once; nothing was called on a
+     connection after its close();
+  R4 every checkout from the pool (`pool.connect()`) was answered by exactly one `pool.release()`-or-`pool.drop()`
+     (counted by a subclass of the real pool class that only counts and delegates);
+  R5 the following sessions B (same thread) and C (other thread, sharing the provider and its lock) raise nothing
+     and commit;
+  R6 after db.disconnect() a file/server pool holds no connection and every connection was closed exactly once
+     (the ':memory:' pool keeps its only connection by design: closing it would destroy the database).
+An exception from the faulted sessions themselves is always acceptable (the property is about what is left behind).
 
-Fake-driver semantics that matter (assumptions): a faulted call has no effect (a failed commit()/rollback()
-leaves the transaction open, a failed close() leaves the handle open but counts as the close); BEGIN inside an
-open transaction raises OperationalError as SQLite does - that is how a transaction left open on a pooled
-connection makes a later session fail.
+Fake-driver semantics that matter (assumptions): a faulted call has no effect (a failed commit()/rollback() leaves
+the transaction open; a failed close() leaves the handle open but counts as the one close); SQLite model: a
+transaction exists between an executed BEGIN and commit()/rollback(), and BEGIN inside an open transaction raises
+OperationalError as SQLite does - that is how a transaction left open on a pooled connection makes a later session
+fail; PEP 249 model for PostgreSQL/MySQL: any execute outside autocommit opens a transaction.
+
+One tolerated leftover, ':memory:' pool only: when rollback() is refused twice in a row on the only connection
+(SessionCache.close's rollback and SQLitePool.drop's retry) the transaction stays open; the pool cannot close that
+connection without destroying the database, so no code could do better; the path ends there.
+
+Per-thread pool state: the SQLite harnesses start from the state of the thread that bound the database
+(`pool.pid` set, as DBAPIProvider.__init__ leaves it).  `fresh_thread_file` starts from a thread that never
+connected (`SQLitePool.__init__` does not set `pid`) and is where the partial-connect defect shows (see classify()
+in checks/c19.py).
 """
 import os
 from engine.ch import ok
 from engine import fakedb as F
 
-NMAX = int(os.environ.get('C19_NMAX', '26'))          # fault numbers range over 0..NMAX
-TWO_ARMED = os.environ.get('C19_TWO_ARMED') == '1'    # thorough: faults stay armed through a second session
+NMAX = int(os.environ.get('C19_NMAX', '80'))          # fault numbers range over 0..NMAX; every armed call is below it (checked)
+K3MAX = int(os.environ.get('C19_K3MAX', '0'))         # thorough tier: a third fault position (set to NMAX)
+MIDS = 8
 
 rec = None
 DBS = {}
 FRESH_THREAD = [False]
+STRICT_STALE = [False]
 LAST = {}          # diagnostics of the last scenario (for replay output)
 
 
@@ -109,6 +139,46 @@ def _make_pg():
     return db
 
 
+def _make_mysql():
+    from engine import env
+    env.install_driver_stubs()
+    import MySQLdb
+    from pony.orm import Database, PrimaryKey, Required
+    from pony.orm.dbproviders import mysql as pmy
+    from pony.orm.dbapiprovider import Pool
+    mod = F.FakeModule(rec, base=MySQLdb, tx_model='pep249', name='MySQLdb')
+    pool = _counting(Pool)(mod)
+    db = Database()
+    db.provider_name = 'mysql'
+    db._bind(pmy.MySQLProvider, pony_pool_mockup=pool)
+
+    class T(db.Entity):
+        id = PrimaryKey(int)
+        a = Required(int)
+    db.generate_mapping(check_tables=False)
+    db.T = T
+    return db
+
+
+STALE = []          # connections returned by prepare_connection_for_query_execution that were not the cache's connection
+
+
+def _watch_prepare():
+    """Delegating wrapper (no behaviour change) around SessionCache.prepare_connection_for_query_execution that notes
+    when the returned connection is not `cache.connection` any more - the known region, see module docstring."""
+    from pony.orm import core
+    orig = core.SessionCache.prepare_connection_for_query_execution
+    if getattr(orig, '_c19_watch', False): return
+
+    def prepare_connection_for_query_execution(cache):
+        con = orig(cache)
+        if con is not cache.connection: STALE.append(con)
+        return con
+    prepare_connection_for_query_execution._c19_watch = True
+    prepare_connection_for_query_execution._c19_orig = orig
+    core.SessionCache.prepare_connection_for_query_execution = prepare_connection_for_query_execution
+
+
 def setup():
     """Once per worker process: stub the clock, build the databases, warm pony's caches with one unfaulted run
     of every shape (so that every explored path sees the same cached translators)."""
@@ -117,18 +187,20 @@ def setup():
         return
     from pony.orm import core
     core.time = lambda: 0.0
+    _watch_prepare()
     rec = F.Recorder()
     DBS['file'] = _make_sqlite('/verif-fake/db.sqlite')
     DBS['mem'] = _make_sqlite(':memory:')
     DBS['pg'] = _make_pg()
+    DBS['my'] = _make_mysql()
     for kind in DBS:
         for shape in range(5):
-            for mid in range(4):
-                r = _scenario(kind, shape, 0, 0, False, mid, 0)
+            for mid in range(MIDS):
+                r = _scenario(kind, shape, 0, 0, 0, False, mid, 0)
                 assert r, (kind, shape, mid, LAST)
 
 
-def _reset(kind, k1, k2, exc_kind):
+def _reset(kind, faults, exc_kind):
     db = DBS[kind]
     pool = db.provider.pool
     pool.con = None
@@ -137,14 +209,22 @@ def _reset(kind, k1, k2, exc_kind):
     if kind == 'pg':
         import psycopg2
         def make(op):
-            e = psycopg2.OperationalError('injected fault in %s' % op)
-            e.pgcode = None            # "connection lost" class: PGProvider.should_reconnect says yes
+            if exc_kind == 2: return F.InjectedFault('injected fault in %s' % op)
+            e = (psycopg2.IntegrityError if exc_kind else psycopg2.OperationalError)('injected fault in %s' % op)
+            e.pgcode = None            # OperationalError without a code = "connection lost": should_reconnect says yes
             return e
-        rec.reset(faults=(k1, k2), exc_factory=make)
+        rec.reset(faults=faults, exc_factory=make)
+        F.reset_session_state(db)
+    elif kind == 'my':
+        import MySQLdb
+        def make(op):                  # 2006 "server has gone away": MySQLProvider.should_reconnect says yes
+            if exc_kind == 2: return F.InjectedFault('injected fault in %s' % op)
+            return (MySQLdb.IntegrityError if exc_kind else MySQLdb.OperationalError)(2006, 'injected fault in %s' % op)
+        rec.reset(faults=faults, exc_factory=make)
         F.reset_session_state(db)
     else:
         F.patch_sqlite_driver(rec)
-        rec.reset(faults=(k1, k2), exc_factory=F.sqlite_exc_factory(exc_kind))
+        rec.reset(faults=faults, exc_factory=F.sqlite_exc_factory(exc_kind))
         F.reset_sqlite_database(db)
         if not FRESH_THREAD[0]:
             pool.pid = os.getpid()     # the state of the thread that bound the database (provider.__init__ connected once)
@@ -152,26 +232,32 @@ def _reset(kind, k1, k2, exc_kind):
 
 
 SHAPES = ('ro', 'opt', 'imm', 'ser', 'ddl')
+SESSION_KW = {'imm': dict(immediate=True), 'ser': dict(serializable=True), 'ddl': dict(ddl=True)}
 
 
 def _session(db, shape, raises, mid, base_id):
     from pony.orm import db_session, select, commit, rollback, flush
     T = db.T
-    kw = {'imm': dict(immediate=True), 'ser': dict(serializable=True), 'ddl': dict(ddl=True)}.get(SHAPES[shape], {})
+    name = SHAPES[shape]
 
     def work(i):
-        if SHAPES[shape] == 'ddl':
-            db.execute('CREATE TABLE x%d (a INTEGER)' % i)
+        if name == 'ddl':
+            db.execute('CREATE TABLE x%d (a INTEGER)' % (base_id + i))
         else:
             select(t for t in T)[:]
-            if SHAPES[shape] != 'ro': T(id=base_id + i, a=i)
-    with db_session(**kw):
+            if name != 'ro': T(id=base_id + i, a=i)
+    with db_session(**SESSION_KW.get(name, {})):
         work(0)
-        if mid:
-            if mid == 1: commit()
-            elif mid == 2: rollback()
-            else: flush()
-            work(1)
+        if mid == 1: commit()
+        elif mid == 2: rollback()
+        elif mid == 3: flush()
+        elif mid == 4: db.commit()
+        elif mid == 5: db.rollback()
+        elif mid == 6: db.execute('UPDATE T SET a = a + 1')
+        if mid == 7:
+            with db_session:
+                work(1)
+        elif mid: work(1)
         if raises: raise BodyError()
 
 
@@ -183,27 +269,26 @@ def _locks_ok(db, why):
     if pl.locked(): why.append('pre_transaction_lock left held')
     if tl.blocked or pl.blocked: why.append('a session would have blocked on the lock')
     if tl.bad_release or pl.bad_release: why.append('release of a free lock')
-    if tl.acquired != tl.released: why.append('acquire/release count differs')
+    if tl.acquired != tl.released or pl.acquired != pl.released: why.append('acquire/release count differs')
     return not why
 
 
 def _memory_rollback_refused_twice(db, con):
-    """The one tolerated leftover: the ':memory:' pool can never close its connection (that would destroy the
-    database), so when the engine refuses rollback() twice in a row - SessionCache.close's rollback and
-    SQLitePool.drop's second attempt - no code could have cleaned the connection.  Then the scenario stops
-    (nothing further is claimed about that path)."""
+    """The one tolerated leftover (see module docstring)."""
     if db is not DBS['mem']: return False
-    return len([e for e in rec.log if e.con is con and e.op == 'rollback' and e.faulted]) == 2
+    ev = [e for e in rec.log if e.con is con and e.op == 'rollback']
+    return len(ev) >= 2 and ev[-1].faulted and ev[-2].faulted and ev[-1].n == rec.log[-1].n
 
 
-def _state_ok(db, why):
+def _state_ok(db, why, pool=None, connections=None):
     from pony.orm import core
     _locks_ok(db, why)
     if core.local.db2cache: why.append('db2cache not empty')
     if core.local.db_session is not None or core.local.db_context_counter: why.append('db_session state left')
-    pool = db.provider.pool
-    for con in rec.connections:
-        if con.calls_after_close: why.append('c%d used after close' % con.id)
+    pool = pool or db.provider.pool
+    for con in (rec.connections if connections is None else connections):
+        if con.calls_after_close and not (con in STALE and not STRICT_STALE[0]):
+            why.append('c%d used after close' % con.id)
         if con.close_calls > 1: why.append('c%d closed %d times' % (con.id, con.close_calls))
         if con is pool.con:
             if con.close_calls: why.append('closed c%d left in the pool' % con.id)
@@ -215,39 +300,77 @@ def _state_ok(db, why):
     return not why
 
 
-def _scenario(kind, shape, k1, k2, raises, mid, exc_kind):
-    raises = True if raises else False            # decide the small symbolic options here, under tracing
-    mid = 0 if mid == 0 else 1 if mid == 1 else 2 if mid == 2 else 3
+def _scenario(kind, shape, k1, k2, k3, raises, mid, exc_kind):
+    # decide the small symbolic options here, under tracing; the fault numbers stay symbolic
+    raises = True if raises else False
+    mid = 0 if mid == 0 else 1 if mid == 1 else 2 if mid == 2 else 3 if mid == 3 else 4 if mid == 4 else 5 if mid == 5 else 6 if mid == 6 else 7
     shape = 0 if shape == 0 else 1 if shape == 1 else 2 if shape == 2 else 3 if shape == 3 else 4
     exc_kind = 0 if exc_kind == 0 else 1 if exc_kind == 1 else 2
     with F.untraced(rec):
-        return _scenario_body(kind, shape, k1, k2, raises, mid, exc_kind)
+        return _scenario_body(kind, shape, (k1, k2, k3), raises, mid, exc_kind)
 
 
 COUNT = [0]
 
 
-def _scenario_body(kind, shape, k1, k2, raises, mid, exc_kind):
+def _other_thread_session(db, kind, why):
+    """Session C: a plain immediate write session in a thread that never used this database (its own pool state and
+    connection, the shared provider lock).  No fault is armed, so no symbolic decision happens in that thread."""
+    import threading
+    before = len(rec.connections)
+    out = []
+
+    def run():
+        from pony.orm import core
+        try:
+            _session(db, 2, False, 0, 40)
+            pool = db.provider.pool                # this thread's pool state
+            w = []
+            _state_ok(db, w, pool, rec.connections[before:])
+            db.disconnect()
+            out.extend(w)
+            out.append(None)
+        except Exception as e:
+            out.append('session in another thread failed: %s: %s' % (type(e).__name__, e))
+    t = threading.Thread(target=run)
+    t.start()
+    t.join(20)
+    if t.is_alive():
+        why.append('session in another thread hangs')
+        return False
+    bad = [x for x in out if x]
+    if bad or not out:
+        why.extend(bad or ['other thread produced nothing'])
+        return False
+    mine = rec.connections[before:]
+    if kind != 'mem' and [c for c in mine if c.close_calls != 1]:
+        why.append('connection of the other thread not closed exactly once')
+        return False
+    del rec.connections[before:]        # the other thread's connections are accounted for; keep this thread's list
+    return True
+
+
+def _scenario_body(kind, shape, faults, raises, mid, exc_kind):
     COUNT[0] += 1
-    db = _reset(kind, k1, k2, exc_kind)
+    del STALE[:]
+    db = _reset(kind, faults, exc_kind)
     why = []
     LAST.clear(); LAST.update(why=why, rec=rec)
-    try:
-        _session(db, shape, raises, mid, 10)
-    except Exception:
-        pass
-    if not _state_ok(db, why): return False
-    if any(c.in_tx for c in rec.connections): return True      # only the tolerated ':memory:' case gets here
-    if TWO_ARMED:
+    for nth in (0, 1):
         try:
-            _session(db, shape, False, 0, 20)
+            if nth == 0: _session(db, shape, raises, mid, 10)
+            else: _session(db, shape, False, 0, 20)
         except Exception:
             pass
         if not _state_ok(db, why): return False
+        if any(c.in_tx for c in rec.connections): return True      # only the tolerated ':memory:' case gets here
+    if rec.n > NMAX:
+        why.append('harness bound: %d armed calls > NMAX' % rec.n)
+        return False
     rec.armed = False
     rec.phase = 1
     try:
-        _session(db, 2, False, 0, 30)        # following session: plain immediate write
+        _session(db, 2, False, 0, 30)        # following session B: plain immediate write, same thread
     except Exception as e:
         why.append('following session failed: %s: %s' % (type(e).__name__, e))
         return False
@@ -255,6 +378,10 @@ def _scenario_body(kind, shape, k1, k2, raises, mid, exc_kind):
     if not [e for e in rec.log if e.phase == 1 and e.op == 'commit']:
         why.append('following session did not commit')
         return False
+    if kind in ('file', 'mem'):
+        rec.phase = 2
+        if not _other_thread_session(db, kind, why): return False
+        if not _locks_ok(db, why): return False
     try:
         db.disconnect()
     except Exception as e:
@@ -278,179 +405,310 @@ def explain(fn, **kw):
 
 HARNESSES = []
 
-# One explicit function per pool kind x session shape (CrossHair reads conditions from the source text).
+# One explicit function per pool kind x session shape (CrossHair reads the conditions from the source text).
 
-def file_ro(k1: int, k2: int, raises: bool, mid: int) -> bool:
+def file_ro(k1: int, k2: int, k3: int, raises: bool, mid: int, exc: int) -> bool:
     """
     pre: 0 <= k1 <= NMAX
     pre: (k2 == 0) or (0 < k1 < k2 <= NMAX)
-    pre: 0 <= mid <= 3
+    pre: (k3 == 0) or (0 < k2 < k3 <= K3MAX)
+    pre: 0 <= mid < MIDS
+    pre: 0 <= exc <= 2
     post: _
     """
-    return ok(_scenario('file', 0, k1, k2, raises, mid, 0))
+    return ok(_scenario('file', 0, k1, k2, k3, raises, mid, exc))
 HARNESSES.append('file_ro')
 
 
-def file_opt(k1: int, k2: int, raises: bool, mid: int) -> bool:
+def file_opt(k1: int, k2: int, k3: int, raises: bool, mid: int, exc: int) -> bool:
     """
     pre: 0 <= k1 <= NMAX
     pre: (k2 == 0) or (0 < k1 < k2 <= NMAX)
-    pre: 0 <= mid <= 3
+    pre: (k3 == 0) or (0 < k2 < k3 <= K3MAX)
+    pre: 0 <= mid < MIDS
+    pre: 0 <= exc <= 2
     post: _
     """
-    return ok(_scenario('file', 1, k1, k2, raises, mid, 0))
+    return ok(_scenario('file', 1, k1, k2, k3, raises, mid, exc))
 HARNESSES.append('file_opt')
 
 
-def file_imm(k1: int, k2: int, raises: bool, mid: int) -> bool:
+def file_imm(k1: int, k2: int, k3: int, raises: bool, mid: int, exc: int) -> bool:
     """
     pre: 0 <= k1 <= NMAX
     pre: (k2 == 0) or (0 < k1 < k2 <= NMAX)
-    pre: 0 <= mid <= 3
+    pre: (k3 == 0) or (0 < k2 < k3 <= K3MAX)
+    pre: 0 <= mid < MIDS
+    pre: 0 <= exc <= 2
     post: _
     """
-    return ok(_scenario('file', 2, k1, k2, raises, mid, 0))
+    return ok(_scenario('file', 2, k1, k2, k3, raises, mid, exc))
 HARNESSES.append('file_imm')
 
 
-def file_ser(k1: int, k2: int, raises: bool, mid: int) -> bool:
+def file_ser(k1: int, k2: int, k3: int, raises: bool, mid: int, exc: int) -> bool:
     """
     pre: 0 <= k1 <= NMAX
     pre: (k2 == 0) or (0 < k1 < k2 <= NMAX)
-    pre: 0 <= mid <= 3
+    pre: (k3 == 0) or (0 < k2 < k3 <= K3MAX)
+    pre: 0 <= mid < MIDS
+    pre: 0 <= exc <= 2
     post: _
     """
-    return ok(_scenario('file', 3, k1, k2, raises, mid, 0))
+    return ok(_scenario('file', 3, k1, k2, k3, raises, mid, exc))
 HARNESSES.append('file_ser')
 
 
-def file_ddl(k1: int, k2: int, raises: bool, mid: int) -> bool:
+def file_ddl(k1: int, k2: int, k3: int, raises: bool, mid: int, exc: int) -> bool:
     """
     pre: 0 <= k1 <= NMAX
     pre: (k2 == 0) or (0 < k1 < k2 <= NMAX)
-    pre: 0 <= mid <= 3
+    pre: (k3 == 0) or (0 < k2 < k3 <= K3MAX)
+    pre: 0 <= mid < MIDS
+    pre: 0 <= exc <= 2
     post: _
     """
-    return ok(_scenario('file', 4, k1, k2, raises, mid, 0))
+    return ok(_scenario('file', 4, k1, k2, k3, raises, mid, exc))
 HARNESSES.append('file_ddl')
 
 
-def mem_ro(k1: int, k2: int, raises: bool, mid: int) -> bool:
+def mem_ro(k1: int, k2: int, k3: int, raises: bool, mid: int, exc: int) -> bool:
     """
     pre: 0 <= k1 <= NMAX
     pre: (k2 == 0) or (0 < k1 < k2 <= NMAX)
-    pre: 0 <= mid <= 3
+    pre: (k3 == 0) or (0 < k2 < k3 <= K3MAX)
+    pre: 0 <= mid < MIDS
+    pre: 0 <= exc <= 2
     post: _
     """
-    return ok(_scenario('mem', 0, k1, k2, raises, mid, 0))
+    return ok(_scenario('mem', 0, k1, k2, k3, raises, mid, exc))
 HARNESSES.append('mem_ro')
 
 
-def mem_opt(k1: int, k2: int, raises: bool, mid: int) -> bool:
+def mem_opt(k1: int, k2: int, k3: int, raises: bool, mid: int, exc: int) -> bool:
     """
     pre: 0 <= k1 <= NMAX
     pre: (k2 == 0) or (0 < k1 < k2 <= NMAX)
-    pre: 0 <= mid <= 3
+    pre: (k3 == 0) or (0 < k2 < k3 <= K3MAX)
+    pre: 0 <= mid < MIDS
+    pre: 0 <= exc <= 2
     post: _
     """
-    return ok(_scenario('mem', 1, k1, k2, raises, mid, 0))
+    return ok(_scenario('mem', 1, k1, k2, k3, raises, mid, exc))
 HARNESSES.append('mem_opt')
 
 
-def mem_imm(k1: int, k2: int, raises: bool, mid: int) -> bool:
+def mem_imm(k1: int, k2: int, k3: int, raises: bool, mid: int, exc: int) -> bool:
     """
     pre: 0 <= k1 <= NMAX
     pre: (k2 == 0) or (0 < k1 < k2 <= NMAX)
-    pre: 0 <= mid <= 3
+    pre: (k3 == 0) or (0 < k2 < k3 <= K3MAX)
+    pre: 0 <= mid < MIDS
+    pre: 0 <= exc <= 2
     post: _
     """
-    return ok(_scenario('mem', 2, k1, k2, raises, mid, 0))
+    return ok(_scenario('mem', 2, k1, k2, k3, raises, mid, exc))
 HARNESSES.append('mem_imm')
 
 
-def mem_ser(k1: int, k2: int, raises: bool, mid: int) -> bool:
+def mem_ser(k1: int, k2: int, k3: int, raises: bool, mid: int, exc: int) -> bool:
     """
     pre: 0 <= k1 <= NMAX
     pre: (k2 == 0) or (0 < k1 < k2 <= NMAX)
-    pre: 0 <= mid <= 3
+    pre: (k3 == 0) or (0 < k2 < k3 <= K3MAX)
+    pre: 0 <= mid < MIDS
+    pre: 0 <= exc <= 2
     post: _
     """
-    return ok(_scenario('mem', 3, k1, k2, raises, mid, 0))
+    return ok(_scenario('mem', 3, k1, k2, k3, raises, mid, exc))
 HARNESSES.append('mem_ser')
 
 
-def mem_ddl(k1: int, k2: int, raises: bool, mid: int) -> bool:
+def mem_ddl(k1: int, k2: int, k3: int, raises: bool, mid: int, exc: int) -> bool:
     """
     pre: 0 <= k1 <= NMAX
     pre: (k2 == 0) or (0 < k1 < k2 <= NMAX)
-    pre: 0 <= mid <= 3
+    pre: (k3 == 0) or (0 < k2 < k3 <= K3MAX)
+    pre: 0 <= mid < MIDS
+    pre: 0 <= exc <= 2
     post: _
     """
-    return ok(_scenario('mem', 4, k1, k2, raises, mid, 0))
+    return ok(_scenario('mem', 4, k1, k2, k3, raises, mid, exc))
 HARNESSES.append('mem_ddl')
 
 
-def pg_ro(k1: int, k2: int, raises: bool, mid: int) -> bool:
+def pg_ro(k1: int, k2: int, k3: int, raises: bool, mid: int, exc: int) -> bool:
     """
     pre: 0 <= k1 <= NMAX
     pre: (k2 == 0) or (0 < k1 < k2 <= NMAX)
-    pre: 0 <= mid <= 3
+    pre: (k3 == 0) or (0 < k2 < k3 <= K3MAX)
+    pre: 0 <= mid < MIDS
+    pre: 0 <= exc <= 2
     post: _
     """
-    return ok(_scenario('pg', 0, k1, k2, raises, mid, 0))
+    return ok(_scenario('pg', 0, k1, k2, k3, raises, mid, exc))
 HARNESSES.append('pg_ro')
 
 
-def pg_opt(k1: int, k2: int, raises: bool, mid: int) -> bool:
+def pg_opt(k1: int, k2: int, k3: int, raises: bool, mid: int, exc: int) -> bool:
     """
     pre: 0 <= k1 <= NMAX
     pre: (k2 == 0) or (0 < k1 < k2 <= NMAX)
-    pre: 0 <= mid <= 3
+    pre: (k3 == 0) or (0 < k2 < k3 <= K3MAX)
+    pre: 0 <= mid < MIDS
+    pre: 0 <= exc <= 2
     post: _
     """
-    return ok(_scenario('pg', 1, k1, k2, raises, mid, 0))
+    return ok(_scenario('pg', 1, k1, k2, k3, raises, mid, exc))
 HARNESSES.append('pg_opt')
 
 
-def pg_imm(k1: int, k2: int, raises: bool, mid: int) -> bool:
+def pg_imm(k1: int, k2: int, k3: int, raises: bool, mid: int, exc: int) -> bool:
     """
     pre: 0 <= k1 <= NMAX
     pre: (k2 == 0) or (0 < k1 < k2 <= NMAX)
-    pre: 0 <= mid <= 3
+    pre: (k3 == 0) or (0 < k2 < k3 <= K3MAX)
+    pre: 0 <= mid < MIDS
+    pre: 0 <= exc <= 2
     post: _
     """
-    return ok(_scenario('pg', 2, k1, k2, raises, mid, 0))
+    return ok(_scenario('pg', 2, k1, k2, k3, raises, mid, exc))
 HARNESSES.append('pg_imm')
 
 
-def pg_ser(k1: int, k2: int, raises: bool, mid: int) -> bool:
+def pg_ser(k1: int, k2: int, k3: int, raises: bool, mid: int, exc: int) -> bool:
     """
     pre: 0 <= k1 <= NMAX
     pre: (k2 == 0) or (0 < k1 < k2 <= NMAX)
-    pre: 0 <= mid <= 3
+    pre: (k3 == 0) or (0 < k2 < k3 <= K3MAX)
+    pre: 0 <= mid < MIDS
+    pre: 0 <= exc <= 2
     post: _
     """
-    return ok(_scenario('pg', 3, k1, k2, raises, mid, 0))
+    return ok(_scenario('pg', 3, k1, k2, k3, raises, mid, exc))
 HARNESSES.append('pg_ser')
 
 
-def pg_ddl(k1: int, k2: int, raises: bool, mid: int) -> bool:
+def pg_ddl(k1: int, k2: int, k3: int, raises: bool, mid: int, exc: int) -> bool:
     """
     pre: 0 <= k1 <= NMAX
     pre: (k2 == 0) or (0 < k1 < k2 <= NMAX)
-    pre: 0 <= mid <= 3
+    pre: (k3 == 0) or (0 < k2 < k3 <= K3MAX)
+    pre: 0 <= mid < MIDS
+    pre: 0 <= exc <= 2
     post: _
     """
-    return ok(_scenario('pg', 4, k1, k2, raises, mid, 0))
+    return ok(_scenario('pg', 4, k1, k2, k3, raises, mid, exc))
 HARNESSES.append('pg_ddl')
 
 
-def exc_kinds(k1: int, kind: int, shape: int, raises: bool) -> bool:
+def my_ro(k1: int, k2: int, k3: int, raises: bool, mid: int, exc: int) -> bool:
     """
     pre: 0 <= k1 <= NMAX
-    pre: 1 <= kind <= 2
+    pre: (k2 == 0) or (0 < k1 < k2 <= NMAX)
+    pre: (k3 == 0) or (0 < k2 < k3 <= K3MAX)
+    pre: 0 <= mid < MIDS
+    pre: 0 <= exc <= 2
+    post: _
+    """
+    return ok(_scenario('my', 0, k1, k2, k3, raises, mid, exc))
+HARNESSES.append('my_ro')
+
+
+def my_opt(k1: int, k2: int, k3: int, raises: bool, mid: int, exc: int) -> bool:
+    """
+    pre: 0 <= k1 <= NMAX
+    pre: (k2 == 0) or (0 < k1 < k2 <= NMAX)
+    pre: (k3 == 0) or (0 < k2 < k3 <= K3MAX)
+    pre: 0 <= mid < MIDS
+    pre: 0 <= exc <= 2
+    post: _
+    """
+    return ok(_scenario('my', 1, k1, k2, k3, raises, mid, exc))
+HARNESSES.append('my_opt')
+
+
+def my_imm(k1: int, k2: int, k3: int, raises: bool, mid: int, exc: int) -> bool:
+    """
+    pre: 0 <= k1 <= NMAX
+    pre: (k2 == 0) or (0 < k1 < k2 <= NMAX)
+    pre: (k3 == 0) or (0 < k2 < k3 <= K3MAX)
+    pre: 0 <= mid < MIDS
+    pre: 0 <= exc <= 2
+    post: _
+    """
+    return ok(_scenario('my', 2, k1, k2, k3, raises, mid, exc))
+HARNESSES.append('my_imm')
+
+
+def my_ser(k1: int, k2: int, k3: int, raises: bool, mid: int, exc: int) -> bool:
+    """
+    pre: 0 <= k1 <= NMAX
+    pre: (k2 == 0) or (0 < k1 < k2 <= NMAX)
+    pre: (k3 == 0) or (0 < k2 < k3 <= K3MAX)
+    pre: 0 <= mid < MIDS
+    pre: 0 <= exc <= 2
+    post: _
+    """
+    return ok(_scenario('my', 3, k1, k2, k3, raises, mid, exc))
+HARNESSES.append('my_ser')
+
+
+def my_ddl(k1: int, k2: int, k3: int, raises: bool, mid: int, exc: int) -> bool:
+    """
+    pre: 0 <= k1 <= NMAX
+    pre: (k2 == 0) or (0 < k1 < k2 <= NMAX)
+    pre: (k3 == 0) or (0 < k2 < k3 <= K3MAX)
+    pre: 0 <= mid < MIDS
+    pre: 0 <= exc <= 2
+    post: _
+    """
+    return ok(_scenario('my', 4, k1, k2, k3, raises, mid, exc))
+HARNESSES.append('my_ddl')
+
+
+def fresh_thread_file(k1: int, k2: int, shape: int, raises: bool) -> bool:
+    """
+    pre: 0 <= k1 <= NMAX
+    pre: (k2 == 0) or (0 < k1 < k2 <= NMAX)
     pre: 0 <= shape <= 4
     post: _
     """
-    return ok(_scenario('file', shape, k1, 0, raises, 0, kind))
-HARNESSES.append('exc_kinds')
+    FRESH_THREAD[0] = True
+    try:
+        return ok(_scenario('file', shape, k1, k2, 0, raises, 0, 0))
+    finally:
+        FRESH_THREAD[0] = False
+HARNESSES.append('fresh_thread_file')
+
+
+def reconnect_stale_pg(k1: int, k2: int, shape: int, raises: bool, mid: int) -> bool:
+    """
+    pre: 0 <= k1 <= NMAX
+    pre: (k2 == 0) or (0 < k1 < k2 <= NMAX)
+    pre: 0 <= shape <= 4
+    pre: 0 <= mid < MIDS
+    post: _
+    """
+    STRICT_STALE[0] = True
+    try:
+        return ok(_scenario('pg', shape, k1, k2, 0, raises, mid, 0))
+    finally:
+        STRICT_STALE[0] = False
+HARNESSES.append('reconnect_stale_pg')
+
+
+def reconnect_stale_my(k1: int, k2: int, shape: int, raises: bool, mid: int) -> bool:
+    """
+    pre: 0 <= k1 <= NMAX
+    pre: (k2 == 0) or (0 < k1 < k2 <= NMAX)
+    pre: 0 <= shape <= 4
+    pre: 0 <= mid < MIDS
+    post: _
+    """
+    STRICT_STALE[0] = True
+    try:
+        return ok(_scenario('my', shape, k1, k2, 0, raises, mid, 0))
+    finally:
+        STRICT_STALE[0] = False
+HARNESSES.append('reconnect_stale_my')
